@@ -89,9 +89,14 @@ def randomise(module, seed, lo=-99, hi=99):
 
 
 def outputs(m, x):
-    """evaluation-mode outputs on two input batches (integer valued and non-integer), flattened"""
-    ys = [B.forward(m, x), B.forward(m, B._scale(x, 0.37))]
+    """outputs on two input batches in evaluation mode and on one in training mode (noise, dropout, batch statistics
+    active; sampling seeded, buffers restored), flattened. Leaves the module in evaluation mode."""
+    ys = [B.forward(m, x), B.forward(m, B._scale(x, 0.37)), B.forward(m, x, mode="train")]
     return torch.cat([y.reshape(-1) for y in ys])
+
+
+def all_eval(m):
+    return not any(sub.training for sub in nn.Module.modules(m))
 
 
 def canon(d):
@@ -250,6 +255,15 @@ class C04(vlib.Driver):
 
             # every advertised method once from the initial architecture, once forced onto its guard,
             # each followed by clone + reinit; then seeded chains
+            if blk in B.LIGHT_BLOCKS:
+                meth = rng.choice(methods)
+                second = rng.choice(methods)
+                cases.append({"kind": "e2e", "block": blk, "seed": nseed,
+                              "ops": [["clone"], ["train"], ["mut", meth, args_for(meth, effective=True)], ["clone"],
+                                      ["mut", second, args_for(second, guard=True)], ["recreate"], ["clone"], ["reinit"]]}); nseed += 1
+                for meth in rng.sample(methods, 2):
+                    cases.append({"kind": "e2e", "block": blk, "seed": nseed, "ops": [["train"], ["mut", meth, args_for(meth, guard=True)], ["clone"]]}); nseed += 1
+                continue
             for meth in methods:
                 # clone -> (train) -> mutate -> clone -> mutate again -> clone -> reinit: clones and re-created encoders are
                 # built from init_dict, so every generation of the chain must report its LIVE architecture
@@ -262,6 +276,10 @@ class C04(vlib.Driver):
                 if any(a.startswith("numb_new") for a in argn[meth]):
                     cases.append({"kind": "e2e", "block": blk, "seed": nseed, "ops": [["train"], ["mut", meth, args_for(meth, guard=True)]]}); nseed += 1
             cases.append({"kind": "e2e", "block": blk, "seed": nseed, "ops": [["train"], ["recreate"], ["clone"], ["rand"], ["reinit"]]}); nseed += 1
+            m0 = rng.choice(methods)
+            cases.append({"kind": "e2e", "block": blk, "seed": nseed,
+                          "ops": [["train"], ["act", rng.choice(["Tanh", "ELU", "GELU", "PReLU"])], ["clone"], ["mut", m0, args_for(m0, effective=True)],
+                                  ["act", "ReLU"], ["clone"]]}); nseed += 1
             nchains = 2 if tier == "quick" else 12
             for c in range(nchains):
                 L = rng.randint(3, 6) if tier == "quick" else rng.randint(4, 10)
@@ -271,6 +289,8 @@ class C04(vlib.Driver):
                     if r < 0.55:
                         meth = rng.choice(methods)
                         ops.append(["mut", meth, args_for(meth, effective=rng.random() < 0.5)])
+                    elif r < 0.6:
+                        ops.append(["act", rng.choice(["Tanh", "ELU", "GELU", "ReLU", "Sigmoid"])])
                     elif r < 0.8:
                         ops.append(["clone"])
                     elif r < 0.88:
@@ -349,6 +369,16 @@ class C04(vlib.Driver):
                     break
                 rec["ret"] = str(ret)
                 rec["applied"] = str(m.last_mutation_attr)
+            elif op[0] == "act":
+                # change_activation (Mutations.activation_mutate): re-creates the network, weights must survive
+                try:
+                    m.change_activation(op[1], output=False)
+                except Exception as e:
+                    frames = [f.name for f in traceback.extract_tb(e.__traceback__)]
+                    rec["raised"] = f"{type(e).__name__}: {str(e)[:200]}"
+                    rec["raised_in"] = [f for f in frames if f in CARRY_FRAMES]
+                    obs["steps"].append(rec)
+                    break
             elif op[0] in ("recreate", "clone", "reinit"):
                 try:
                     if op[0] == "recreate":
@@ -371,6 +401,13 @@ class C04(vlib.Driver):
             else:
                 raise ValueError(op)
             try:
+                # the module was in evaluation mode before the operation: what does the object compute as it is now?
+                rec["all_eval"] = all_eval(m)
+                rec["training"] = bool(m.training)
+                y_raw = B.forward(m, x, mode="asis")
+                n_raw = y_raw.numel()
+                rec["asis_equal"] = bool(y_b[:n_raw].shape == y_raw.reshape(-1).shape
+                                         and torch.allclose(y_raw.reshape(-1), y_b[:n_raw], rtol=1e-5, atol=1e-6, equal_nan=True))
                 y_a = outputs(m, x)
             except Exception as e:
                 rec["raised"] = f"{type(e).__name__}: {str(e)[:200]}"
@@ -398,25 +435,61 @@ class C04(vlib.Driver):
         torch.manual_seed(case["seed"]); np.random.seed(case["seed"])
         agent = B.build_agent(case["algo"])
         groups = B.agent_groups(agent)
+
+        class _Nets:                                   # a list of networks (multi-agent) viewed as one module
+            def __init__(self, nets):
+                self.nets = nets if isinstance(nets, list) else [nets]
+                self.is_list = isinstance(nets, list)
+
+            def named_parameters(self, remove_duplicate=False):
+                for i, n in enumerate(self.nets):
+                    for k, p in n.named_parameters(remove_duplicate=remove_duplicate):
+                        yield (f"{i}.{k}" if self.is_list else k), p
+
+            def named_buffers(self):
+                for i, n in enumerate(self.nets):
+                    for k, b in n.named_buffers():
+                        yield (f"{i}.{k}" if self.is_list else k), b
+
+            def parameters(self):
+                for n in self.nets:
+                    yield from n.parameters()
+
+            @property
+            def init_dict(self):
+                return [n.init_dict for n in self.nets]
+
+            @property
+            def last_mutation_attr(self):
+                return [n.last_mutation_attr for n in self.nets]
+
+        def view(name):
+            return _Nets(getattr(agent, name))
         for gi, (ev, _) in enumerate(groups):
-            randomise(getattr(agent, ev), 7000 + case["seed"] * 17 + gi)
+            randomise(view(ev), 7000 + case["seed"] * 17 + gi)
         mut = Mutations(0, 1, 0.5, 0, 0, 0, rand_seed=case["seed"])
-        obs = {"groups": [[ev, sh] for ev, sh in groups], "init": {ev: snap(getattr(agent, ev)) for ev, _ in groups}, "rounds": []}
+        obs = {"groups": [[ev, sh] for ev, sh in groups], "init": {ev: snap(view(ev)) for ev, _ in groups}, "rounds": []}
         for r in range(case["rounds"]):
-            arch_b = {ev: canon(getattr(agent, ev).init_dict) for ev, _ in groups}
-            [agent] = mut.mutation([agent])
+            arch_b = {ev: canon(view(ev).init_dict) for ev, _ in groups}
+            try:
+                [agent] = mut.mutation([agent])
+            except Exception as e:
+                frames = [f.name for f in traceback.extract_tb(e.__traceback__)]
+                obs["rounds"].append({"raised": f"{type(e).__name__}: {str(e)[:200]}",
+                                      "raised_in": [f for f in frames if f in CARRY_FRAMES + ("reinit_from_mutated", "load_state_dicts")]})
+                break
             rec = {"mut": str(agent.mut), "evals": {}, "shared": {}}
             for ev, shs in groups:
-                net = getattr(agent, ev)
+                net = view(ev)
                 rec["evals"][ev] = {"after": snap(net), "same_arch": canon(net.init_dict) == arch_b[ev], "applied": str(net.last_mutation_attr)}
                 for sh in shs:
-                    rec["shared"][sh] = {"after": snap(getattr(agent, sh)), "same_arch": canon(getattr(agent, sh).init_dict) == canon(net.init_dict)}
+                    rec["shared"][sh] = {"after": snap(view(sh)), "same_arch": canon(view(sh).init_dict) == canon(net.init_dict)}
             obs["rounds"].append(rec)
             if r + 1 < case["rounds"]:
                 for gi, (ev, _) in enumerate(groups):       # "training" between generations
-                    randomise(getattr(agent, ev), 9000 + case["seed"] * 17 + gi + 100 * r)
+                    randomise(view(ev), 9000 + case["seed"] * 17 + gi + 100 * r)
                 for ev, _ in groups:
-                    rec["evals"][ev]["trained"] = snap(getattr(agent, ev))
+                    rec["evals"][ev]["trained"] = snap(view(ev))
         return obs
 
     def _known(self):
@@ -450,6 +523,8 @@ class C04(vlib.Driver):
                 init = ref(obs["init"][ev])
                 steps = []
                 for rec in obs["rounds"]:
+                    if "raised" in rec:
+                        break
                     e = rec["evals"][ev]
                     steps.append(f"{'Same' if e['same_arch'] else 'Mut'} {ref(e['after'])}")
                     for sh in shs:
@@ -480,13 +555,16 @@ class C04(vlib.Driver):
             if "raised" in rec:
                 break
             a = ref(rec["after"])
-            if op[0] in ("mut", "recreate"):
+            if op[0] in ("mut", "recreate", "act"):
                 steps.append(f"{'Same' if rec['same_arch'] else 'Mut'} {a}")
             elif op[0] in ("clone", "reinit"):
                 steps.append(f"Clone {a}")
             else:
                 steps.append(f"Rand {a}")
-        return " ".join(binds) + f" check_chain {init} [{'; '.join(steps)}]"
+        modes = "".join(f" && check_mode false {'true' if rec['training'] else 'false'} {'true' if rec['all_eval'] else 'false'}"
+                        for op, rec in list(zip(case["ops"], obs["steps"]))[:upto]
+                        if op[0] in ("mut", "recreate", "act", "clone") and "training" in rec and "raised" not in rec)
+        return " ".join(binds) + f" (check_chain {init} [{'; '.join(steps)}]{modes})"
 
     # ---------------------------------------------------------------- oracle
     @staticmethod
@@ -551,6 +629,12 @@ class C04(vlib.Driver):
             for ev, shs in obs["groups"]:
                 cur = obs["init"][ev]
                 for r, rec in enumerate(obs["rounds"]):
+                    if "raised" in rec:
+                        if rec["raised_in"]:
+                            out.append(Violation("error", f"agent:mutation-raises-carrying-weights:{algo}:{rec['raised'].split(':')[0]}",
+                                                 f"{algo} round {r}: Mutations.mutation failed inside {rec['raised_in']}: {rec['raised']}"))
+                            return out
+                        break
                     e = rec["evals"][ev]
                     where = f"{algo} round {r} (agent.mut={rec['mut']}) network {ev} (applied {e['applied']})"
                     for clause, k, detail in self.common_slice_violations(cur, e["after"]):
@@ -576,7 +660,7 @@ class C04(vlib.Driver):
                 if rec["raised_in"] == ["forward"]:
                     out.append(Violation("forward-raises", f"e2e:forward-raises:{blk}:{exc}",
                                          f"{where}: the forward pass fails after the operation: {rec['raised']}"))
-                elif rec["raised_in"] and op[0] != "mut":
+                elif rec["raised_in"] and op[0] not in ("mut", "act"):
                     out.append(Violation(f"{op[0]}-raises", f"e2e:{op[0]}-raises:{blk}:{exc}",
                                          f"{where}: {op[0]} fails: {rec['raised']}"))
                 elif rec["raised_in"]:
@@ -585,7 +669,7 @@ class C04(vlib.Driver):
                 for v in out:
                     v.step = oi
                 break
-            if op[0] in ("mut", "recreate"):
+            if op[0] in ("mut", "recreate", "act"):
                 for clause, k, detail in self.common_slice_violations(cur, rec["after"]):
                     out.append(Violation(clause, f"e2e:{clause}:{blk}:{category(k)}", f"{where}: {detail}"))
                     break
@@ -593,6 +677,10 @@ class C04(vlib.Driver):
                     if not rec["params_equal"]:
                         out.append(Violation("same-arch-params", f"e2e:same-arch-params:{blk}",
                                              f"{where}: init_dict unchanged but parameters differ after the operation"))
+                    elif rec["out_equal"] and not rec["asis_equal"]:
+                        out.append(Violation("eval-mode-lost", f"e2e:eval-mode-lost:mutation:{blk}",
+                                             f"{where}: module was in eval(); init_dict, parameters, buffers unchanged and outputs agree once the mode is "
+                                             f"set again, but as the mutation leaves it (sub-modules all in eval mode: {rec['all_eval']}) the network computes different outputs"))
                     elif not rec["out_equal"]:
                         if not rec["buffers_equal"]:
                             out.append(Violation("same-arch-buffers-lost", f"e2e:same-arch-buffers-lost:{blk}",
@@ -604,6 +692,10 @@ class C04(vlib.Driver):
             elif op[0] in ("clone", "reinit"):
                 if not rec["params_equal"]:
                     out.append(Violation(f"{op[0]}-params", f"e2e:{op[0]}-params:{blk}", f"{where}: parameters of the copy differ from the original"))
+                elif op[0] == "clone" and rec["out_equal"] and not rec["asis_equal"]:
+                    out.append(Violation("eval-mode-lost", f"e2e:eval-mode-lost:clone:{blk}",
+                                         f"{where}: module was in eval(); the clone has equal parameters and buffers and equal outputs once the mode is set, "
+                                         f"but as clone() returns it (all sub-modules in eval mode: {rec['all_eval']}) it does not reproduce the original's outputs"))
                 elif not rec["out_equal"]:
                     out.append(Violation(f"{op[0]}-output", f"e2e:{op[0]}-output:{blk}",
                                          f"{where}: outputs of the copy differ by {rec['out_maxdiff']} (buffers equal: {rec['buffers_equal']}, init_dict equal: {rec['same_arch']})"))
@@ -631,14 +723,14 @@ class C04(vlib.Driver):
 
     def nontrivial(self, case, obs):
         if case["kind"] == "agent":
-            return any(self._sig(rec["evals"][ev]["after"]) != self._sig(obs["init"][ev]) for rec in obs["rounds"] for ev, _ in obs["groups"])
+            return any(self._sig(rec["evals"][ev]["after"]) != self._sig(obs["init"][ev]) for rec in obs["rounds"] if "raised" not in rec for ev, _ in obs["groups"])
         if case["kind"] == "unit":
             return self._sig(obs["old"]) != self._sig(obs["new"])
         cur = self._sig(obs["init"])
         for op, rec in zip(case["ops"], obs["steps"]):
             if "raised" in rec:
                 break
-            if op[0] in ("mut", "recreate") and self._sig(rec["after"]) != cur:
+            if op[0] in ("mut", "recreate", "act") and self._sig(rec["after"]) != cur:
                 return True
             cur = self._sig(rec["after"])
         return False
@@ -647,6 +739,9 @@ class C04(vlib.Driver):
         if case["kind"] == "agent":
             labs = ["kind=agent", f"algo={case['algo']}"]
             for rec in obs["rounds"]:
+                if "raised" in rec:
+                    labs.append("agent-mut=raised")
+                    break
                 labs.append(f"agent-mut={rec['mut'].split('.')[-1]}")
                 labs += [f"agent-shared-reinit" for _ in rec["shared"]]
             return labs
@@ -677,7 +772,9 @@ class C04(vlib.Driver):
             if "raised" in rec:
                 labs.append(f"op={op[0]}:{op[1].split('.')[-1] if op[0] == 'mut' else ''}:raised-{'in-' + rec['raised_in'][0] if rec['raised_in'] else 'elsewhere(C03)'}")
                 break
-            if op[0] == "mut":
+            if op[0] == "act":
+                labs.append(f"op=act:{op[1]}")
+            elif op[0] == "mut":
                 ch = "arch-changed" if self._sig(rec["after"]) != cur else ("arch-same" if rec["same_arch"] else "arch-same-signature")
                 labs.append(f"op=mut:{op[1].split('.')[-1]}:{ch}")
             else:
